@@ -16,6 +16,8 @@ namespace ZxVerif.Loaders
 def READ_STRING_BUFFER_SIZE : Nat := 256
 def VTX_DECODE_CHUNK : Nat := 65536
 
+def stopIf (c : Bool) (o : Outcome) : M Unit := if c then stopM o else pure ()
+
 /-- one `reader.read(&mut buf)?` -/
 def readM (want : Nat) : M Nat := fun s =>
   match s.a.read want with
@@ -84,9 +86,9 @@ def vtxLoad (fx : Fix) (lha : Option Nat) : M Unit := do
   let m ← vtxReadExact 2 .vtxHeader
   let a ← getAsset
   let magic := a.window m 2
-  if magic ≠ [0x61, 0x79] ∧ magic ≠ [0x79, 0x6D] then failM .vtxHeader
+  guardM (decide (magic ≠ [0x61, 0x79] ∧ magic ≠ [0x79, 0x6D])) .vtxHeader
   let s ← vtxReadExact 1
-  if 6 < a.u8 s then failM .vtxHeader
+  guardM (decide (6 < a.u8 s)) .vtxHeader
   let _ ← vtxReadExact 2
   let _ ← vtxReadExact 4
   let p ← vtxReadExact 1
@@ -94,9 +96,9 @@ def vtxLoad (fx : Fix) (lha : Option Nat) : M Unit := do
   let _ ← vtxReadExact 2
   let d ← vtxReadExact 4
   let claim := a.le32 d
-  if claim % 14 ≠ 0 then failM .vtxHeader
+  guardM (decide (claim % 14 ≠ 0)) .vtxHeader
   -- repaired code refuses a player frequency of 0 here
-  if fx .vtxPlayerFreq && pf = 0 then failM .vtxHeader
+  guardM (fx .vtxPlayerFreq && decide (pf = 0)) .vtxHeader
   let stringsStart ← vtxSeek (.current 0)
   let a1 ← getAsset
   let fuel := a1.len + a1.sc.readFails.foldl max 0 + 3
@@ -106,19 +108,18 @@ def vtxLoad (fx : Fix) (lha : Option Nat) : M Unit := do
   alloc (size - 1)
   let b ← vtxReadExact (size - 1)
   let z ← vtxReadExact 1
-  if a.u8 z ≠ 0 then failM .vtxHeader
+  guardM (decide (a.u8 z ≠ 0)) .vtxHeader
   -- strings_buffer.split(0): one piece more than there are NULs
   tick
   check fx .vtxStrings (countZeros a b (size - 1) + 1 ≠ 5) .vtxHeader
   -- frame buffer: the whole declared size at once / grown while the decoder delivers
-  if fx .vtxAlloc then alloc (2 * (min claim produced + VTX_DECODE_CHUNK))
-  else alloc claim
+  alloc (if fx .vtxAlloc then 2 * (min claim produced + VTX_DECODE_CHUNK) else claim)
   tick
-  if lha.isNone && 0 < claim then panicM .vtxLha
-  if produced < claim then failM .vtxDecompress
+  stopIf (lha.isNone && decide (0 < claim)) (.panic .vtxLha)
+  guardM (decide (produced < claim)) .vtxDecompress
   alloc claim
   tick
   -- Player::new
-  if pf = 0 then panicM .vtxPlayerFreq
+  stopIf (decide (pf = 0)) (.panic .vtxPlayerFreq)
 
 end ZxVerif.Loaders
